@@ -50,7 +50,7 @@ def main() -> int:
             txt = re.sub(r"/tmp/mut/C\d\d(?:/MUTATION\d)?(?=/src|['\"/ ]|$)", lambda mm: str(wt) if "MUTATION" not in mm.group(0) else str(ddir), txt)
             (ddir / p.name).write_text(txt)
         demo = next((p for p in demo_files if p.name.startswith("demo")), demo_files[0])
-        use_pytest = ("pytest" in how and "python -m pytest" in how and demo.name in how) or demo.name.startswith("test_")
+        use_pytest = "--python" not in sys.argv and (("python -m pytest" in how and demo.name in how) or demo.name.startswith("test_"))
         tmproot = Path("/tmp/mv-tmp") / name
         shutil.rmtree(tmproot, ignore_errors=True)
         tmproot.mkdir(parents=True)
